@@ -51,8 +51,9 @@ Definition syn_rejected : list ustring :=
 
 Inductive case := Pascal | Snake.
 
-Inductive outcome (A : Type) := Ok (a : A) | Panic.
+Inductive outcome (A : Type) := Ok (a : A) | Err | Panic.
 Arguments Ok {A} a.
+Arguments Err {A}.
 Arguments Panic {A}.
 
 Definition umem (x : ustring) (l : list ustring) : bool := existsb (ustring_eqb x) l.
@@ -141,20 +142,29 @@ Section Sanitize.
   Definition variants (raws : list ustring) : outcome (list (ustring * option ustring)) :=
     match variant_idents raws with
     | Ok ids => Ok (List.map (fun p => (snd p, variant_rename (fst p) (snd p))) (combine raws ids))
+    | Err => Err
     | Panic => Panic
     end.
 
-  (* structs.rs:158: one field per property, no uniqueness test *)
+  (* structs.rs:158: one field per property *)
   Definition field_idents (props : list ustring) : list (ustring * option ustring) :=
     List.map (fun p => recase p Snake) props.
 
-  (* structs.rs:19-135 struct_members: the fields of the generated struct, in
-     declaration order up to the (stable) sort by identifier; when
+  (* structs.rs:19-146 struct_members: the field names of the generated
+     struct, in declaration order up to the (stable) sort by identifier; when
      additionalProperties is a schema other than true/false a flattened map
-     field named "extra" is pushed (structs.rs:121-129), again without any
-     uniqueness test *)
+     field named "extra" is pushed (structs.rs:97-113) *)
   Definition struct_field_names (props : list ustring) (typed_additional : bool) : list ustring :=
     List.map fst (field_idents props) ++ (if typed_additional then [s_extra] else []).
+
+  (* structs.rs:119-144 (fix 5896b59): Err(InvalidSchema "multiple properties
+     map to the same field name") unless the final names are unique.
+     Result: (renamed property fields, flattened fields). *)
+  Definition struct_members (props : list ustring) (typed_additional : bool)
+    : outcome (list (ustring * option ustring) * list ustring) :=
+    if unique (struct_field_names props typed_additional)
+    then Ok (field_idents props, if typed_additional then [s_extra] else [])
+    else Err.
 
   (* util.rs:798 / lib.rs:661: one item per definition, no uniqueness test *)
   Definition def_idents (defs : list ustring) : list ustring :=
@@ -255,10 +265,15 @@ Fixpoint show_list (l : list string) : string :=
 Definition run_variants (cls : CharClasses) (raws : list ustring) : string :=
   match variants cls raws with
   | Panic => "panic"
+  | Err => "err"
   | Ok vs => ("ok:" ++ show_list (List.map (fun p => show_ustring (fst p) ++ "/" ++ show_rename (snd p)) vs))%string
   end.
 
 Definition run_fields (cls : CharClasses) (props : list ustring) (typed_additional : bool) : string :=
-  show_list (List.map (fun p => show_ustring (fst p) ++ "/" ++ show_rename (snd p))%string (field_idents cls props)
-             ++ List.map (fun n => show_ustring n ++ "/flatten")%string
-                  (skipn (List.length props) (struct_field_names cls props typed_additional))).
+  match struct_members cls props typed_additional with
+  | Ok (fs, fl) =>
+      show_list (List.map (fun p => show_ustring (fst p) ++ "/" ++ show_rename (snd p))%string fs
+                 ++ List.map (fun n => show_ustring n ++ "/flatten")%string fl)
+  | Err => "err"
+  | Panic => "panic"
+  end.
